@@ -13,56 +13,28 @@ Qed.
 Lemma stuck_not_all_returned s : stuck s -> ~ all_returned s.
 Proof. intros (p & v & H & N) A. destruct (A _ _ H) as [r E]. exact (N r E). Qed.
 
-(* (3) the iff *)
-Lemma no_lost_wakeup_iff_l c ls s :
-  0 <= cap c -> Forall (wf_label c) ls -> run c init ls = Some s -> quiescent c s ->
-  (stuck s <-> f3_shape s \/ s1_shape s) /\
-  (s1_shape s -> Exists (fun l => ~ fit_label c l) ls) /\
+(* (3) the iff — after the repair of S1 the only stuck quiescent states are the F3 deadlock *)
+Lemma no_lost_wakeup_iff_l c s :
+  0 <= cap c -> reachable c s -> quiescent c s ->
+  (stuck s <-> f3_shape s) /\ ~ s1_shape s /\
   (f3_shape s -> exists p sz, pget p (prods s) = Some (PLeftCtx sz) /\ In p (cancelled s)).
 Proof.
-  intros Hc W R Q.
-  assert (RE : reachable c s) by (exists ls; auto).
-  pose proof (reachable_inv _ _ Hc RE) as ((T1 & T2 & T3 & T4) & SI & (_ & _ & _ & _ & _ & G6) & (_ & _ & _ & _ & D5)).
+  intros Hc RE Q.
+  pose proof (reachable_inv _ _ Hc RE) as ((T1 & T2 & T3 & T4 & _) & SI & (_ & _ & _ & _ & _ & G6) & (_ & _ & _ & _ & D5)).
   assert (F3W : f3_shape s -> exists p sz, pget p (prods s) = Some (PLeftCtx sz) /\ In p (cancelled s)).
   { intros (_ & _ & _ & LC). destruct (cnt_pos_ex is_leftctx (prods s) G6) as (p & v & Hp & Hv); [lia|].
     destruct v; try discriminate. exists p, sz. split; [exact Hp|]. eapply D5. exact Hp. }
   split; [split|split].
-  - (* stuck -> shapes *)
-    intros ST. destruct (lock s) as [|k|p0|] eqn:L.
-    + right.
-      destruct (quiescent_facts _ _ Q L) as (Q1 & Q2 & Q3 & Q4 & Q5 & Q6).
-      destruct SI as (B1 & _ & B3 & _).
-      assert (SZ : size s = 0) by (rewrite Q1, Q2 in B3; unfold sum_sz in B3; simpl in B3; lia).
-      destruct ST as (p & v & Hp & N).
-      destruct v as [sz|sz|sz| |r].
-      * destruct (Q5 _ _ Hp) as [Tk Mb].
-        repeat split; auto. exists p, sz. split; [exact Hp|]. intros I. apply In_memb in I. congruence.
-      * exfalso. eapply Q3; eassumption.
-      * exfalso. eapply Q4; eassumption.
-      * exfalso. destruct (Q6 _ Hp) as [Fr _].
-        destruct (reach_awaitinv _ _ Hc RE _ Hp) as [I|[I|[I|[e I]]]].
-        -- rewrite Q1 in I. exact I.
-        -- rewrite Q2 in I. exact I.
-        -- destruct (In_find_id _ _ I) as [e E]. congruence.
-        -- congruence.
-      * exfalso. exact (N r eq_refl).
-    + left. assert (NL : lock s <> Free) by congruence.
+  - intros ST. destruct (lock s) as [|k|p0|] eqn:L.
+    + exfalso. exact (stuck_not_all_returned _ ST (no_lost_wakeup_partial_l _ _ Hc RE Q L)).
+    + assert (NL : lock s <> Free) by congruence.
       destruct (deadlock_shape_l _ _ Hc RE Q NL) as (X1 & X2 & X3 & X4 & _).
       repeat split; auto.
     + exfalso. eapply T4. reflexivity.
     + exfalso. exact (reach_nobcast _ _ RE L).
-  - (* shapes -> stuck *)
-    intros [F|S1].
-    + destruct (F3W F) as (p & sz & Hp & _). exists p, (PLeftCtx sz). split; [exact Hp|]. intros r; discriminate.
-    + destruct S1 as (_ & _ & _ & _ & _ & p & sz & Hp & _). exists p, (PInSelect sz). split; [exact Hp|].
-      intros r; discriminate.
-  - (* the S1 shape needs an oversized offer in the history *)
-    intros S1. destruct (Forall_Exists_dec _ (fit_label_dec c) ls) as [FA|EX]; [exfalso|exact EX].
-    assert (RF : reachable_fit c s).
-    { exists ls. split; [|exact R]. clear - W FA. induction ls; [constructor|].
-      inversion W; inversion FA; subst. constructor; auto. }
-    destruct S1 as (L & _ & _ & _ & _ & p & sz & Hp & _).
-    destruct (no_lost_wakeup_partial_l _ _ Hc RF Q L _ _ Hp) as [r E]. discriminate.
+  - intros F. destruct (F3W F) as (p & sz & Hp & _). exists p, (PLeftCtx sz). split; [exact Hp|]. intros r; discriminate.
+  - intros (L & _ & _ & _ & _ & p & sz & Hp & _).
+    destruct (no_lost_wakeup_partial_l _ _ Hc RE Q L _ _ Hp) as [r E]. discriminate.
   - exact F3W.
 Qed.
 
@@ -149,29 +121,37 @@ Definition thread_of (l : label) : option nat :=
   | _ => None
   end.
 
+Lemma find_id_app_some p (l : list (nat * Z)) x k : find_id p l = Some k -> find_id p (l ++ [x]) = Some k.
+Proof.
+  induction l as [|[q w] l IH]; simpl; [discriminate|]. destruct (Nat.eqb q p); auto.
+Qed.
+
 Lemma step_frame c s l s' z :
   step c s l = Some (s', z) ->
   (forall p, thread_of l <> Some p -> pget p (prods s') = pget p (prods s)) /\
   (forall x, In x (acc s) -> In x (acc s')) /\
   (forall x, In x (cancelled s) -> In x (cancelled s')) /\
-  (internal l = true -> cancelled s' = cancelled s).
+  (internal l = true -> cancelled s' = cancelled s /\ faulty s' = faulty s) /\
+  (forall p k, find_id p (faulty s) = Some k -> find_id p (faulty s') = Some k).
 Proof.
-  intros H. revert H. step_cases; cbn [thread_of]; (split; [|split; [|split]]); intros; auto;
+  intros H. revert H. step_cases; cbn [thread_of]; (split; [|split; [|split; [|split]]]); intros; auto;
+    try (apply find_id_app_some; assumption);
     try (rewrite pget_pset_neq; [reflexivity|congruence]);
     try (apply in_or_app; left; assumption); try (right; assumption); try discriminate.
 Qed.
 
 Lemma fate_step c p s l s' z :
-  faulty s = [] -> blocking c = true -> fate p s -> step c s l = Some (s', z) -> fate p s'.
+  blocking c = true -> fate p s -> step c s l = Some (s', z) -> fate p s'.
 Proof.
-  intros NF2 B F H.
-  destruct (step_frame _ _ _ _ _ H) as (FR & AC & CA & _).
+  intros B F H.
+  destruct (step_frame _ _ _ _ _ H) as (FR & AC & CA & _ & FA).
   assert (OTHER : thread_of l <> Some p -> fate p s').
   { intros N. unfold fate in *. rewrite (FR _ N).
-    destruct (pget p (prods s)) as [[sz|sz|sz| |[| | | | |e|k]]|]; auto. }
+    destruct (pget p (prods s)) as [[sz|sz|sz| |[| | | | |e|k]]|]; auto.
+    destruct (find_id p (faulty s)) as [k0|] eqn:E; [|congruence]. rewrite (FA _ _ E). discriminate. }
   destruct l; try (apply OTHER; simpl; congruence);
     (destruct (Nat.eq_dec p0 p) as [->|NE]; [|apply OTHER; simpl; congruence]);
-    clear OTHER FR AC CA; revert B F; unfold fate; revert H;
+    clear OTHER FR AC CA FA; revert B F; unfold fate; revert H;
     step_cases; intros B F;
     try match goal with H : pget ?q (pset ?q ?v ?m) = ?x |- _ =>
           rewrite pget_pset_eq in H; first [discriminate H | inversion H; subst] end;
@@ -180,15 +160,12 @@ Proof.
 Qed.
 
 Lemma fate_run c p ls : forall s s',
-  faulty s = [] -> internal_run ls -> blocking c = true -> fate p s -> run c s ls = Some s' -> fate p s'.
+  blocking c = true -> fate p s -> run c s ls = Some s' -> fate p s'.
 Proof.
-  induction ls as [|l ls IH]; intros s s' NF2 IR B F R; simpl in R.
+  induction ls as [|l ls IH]; intros s s' B F R; simpl in R.
   - inversion R; subst. exact F.
-  - inversion IR as [|? ? Hi IR']; subst.
-    destruct (step c s l) as [[s1 z]|] eqn:E; [|discriminate].
-    eapply IH; [|exact IR'|exact B| |exact R].
-    + eapply nofault2_step; [exact NF2| |exact E]. destruct l; simpl; auto; discriminate.
-    + eapply fate_step; eauto.
+  - destruct (step c s l) as [[s1 z]|] eqn:E; [|discriminate].
+    eapply IH; [exact B| |exact R]. eapply fate_step; eauto.
 Qed.
 
 Lemma cancelled_internal_run c ls : forall s s',
@@ -198,7 +175,58 @@ Proof.
   - inversion R; subst. reflexivity.
   - inversion IR as [|? ? Hi IR']; subst.
     destruct (step c s l) as [[s1 z]|] eqn:E; [|discriminate].
-    rewrite (IH _ _ IR' R). destruct (step_frame _ _ _ _ _ E) as (_ & _ & _ & X). exact (X Hi).
+    rewrite (IH _ _ IR' R). destruct (step_frame _ _ _ _ _ E) as (_ & _ & _ & X & _). exact (proj1 (X Hi)).
+Qed.
+
+Lemma faulty_internal_run c ls : forall s s',
+  internal_run ls -> run c s ls = Some s' -> faulty s' = faulty s.
+Proof.
+  induction ls as [|l ls IH]; intros s s' IR R; simpl in R.
+  - inversion R; subst. reflexivity.
+  - inversion IR as [|? ? Hi IR']; subst.
+    destruct (step c s l) as [[s1 z]|] eqn:E; [|discriminate].
+    rewrite (IH _ _ IR' R). destruct (step_frame _ _ _ _ _ E) as (_ & _ & _ & X & _). exact (proj2 (X Hi)).
+Qed.
+
+(* a producer whose request cannot be stored is never accepted *)
+Definition faultyinv (s : st) : Prop :=
+  forall p k, find_id p (faulty s) = Some k -> ~ In p (acc s) /\ pget p (prods s) <> None.
+
+Lemma find_id_app_inv p (l : list (nat * Z)) q k0 k :
+  find_id p (l ++ [(q, k0)]) = Some k -> find_id p l = Some k \/ (p = q /\ find_id p l = None).
+Proof.
+  induction l as [|[r w] l IH]; simpl.
+  - destruct (Nat.eqb q p) eqn:E; [apply Nat.eqb_eq in E; auto|discriminate].
+  - destruct (Nat.eqb r p); auto.
+Qed.
+
+Lemma faultyinv_step c s l s' z :
+  corrupt s = [] -> ghostinv c s -> faultyinv s -> step c s l = Some (s', z) -> faultyinv s'.
+Proof.
+  intros NF (_ & _ & _ & G4 & _) I H. revert I G4. unfold faultyinv. revert H.
+  step_cases; intros I G4 q k0 Hq;
+    try (apply find_id_app_inv in Hq; destruct Hq as [Hq|[-> Hq]];
+         [|split; [eapply notin_acc_none; eassumption|rewrite pget_pset_eq; discriminate]]);
+    destruct (I _ _ Hq) as [I1 I2];
+    (split;
+     [ first [ exact I1
+             | intros X; apply in_app_or in X; destruct X as [X|[X|[]]]; [exact (I1 X)|subst; congruence] ]
+     | rewrite ?pget_pset; try (destruct (Nat.eqb _ _)); try discriminate; exact I2 ]).
+Qed.
+
+Lemma reach_faultyinv c s : 0 <= cap c -> reachable c s -> faultyinv s.
+Proof.
+  intros Hc R. assert (X : allinv c s /\ faultyinv s); [|exact (proj2 X)].
+  revert s R. apply reachP_ind.
+  - split; [|intros p k H; discriminate].
+    split; [|split; [|split]]; [apply tokinv_init|apply sizeinv_init; exact Hc|apply ghostinv_init|apply wfrinv_init].
+  - intros s0 l s1 z R0 ((I1 & I2 & I3 & I4) & I5) W Hs. pose proof (reach_nofault _ c s0 (fun l H => H) R0) as NF. split.
+    + split; [|split; [|split]].
+      * eapply tokinv_step; eauto.
+      * eapply sizeinv_step; eauto.
+      * eapply ghostinv_step; eauto.
+      * eapply wfrinv_step; eauto.
+    + eapply faultyinv_step; eauto.
 Qed.
 
 Lemma reachP_run (P : label -> Prop) c ls : forall s s',
@@ -220,7 +248,7 @@ Proof. destruct l; simpl; intros H; try discriminate; auto. Qed.
    (b) that quiescent state is the F3 deadlock, or else everybody has returned, the queue has drained, and every
        producer that was parked in [s] with a live context has been admitted, handed to a consumer and finished. *)
 Lemma released_when_space_l c s ls s' :
-  0 <= cap c -> reachable_fit c s -> stopped s = false ->
+  0 <= cap c -> reachable c s -> stopped s = false ->
   internal_run ls -> run c s ls = Some s' ->
   Z.of_nat (length ls) <= mu s /\
   (quiescent c s' ->
@@ -229,30 +257,42 @@ Lemma released_when_space_l c s ls s' :
       forall p sz, blocking c = true ->
         pget p (prods s) = Some (PInSelect sz) \/ pget p (prods s) = Some (PLeftTok sz) ->
         ~ In p (cancelled s) ->
-        In p (acc s') /\ In p (hand s') /\ In p (map fst (fin s')))).
+        (find_id p (faulty s) = None -> In p (acc s') /\ In p (hand s') /\ In p (map fst (fin s'))) /\
+        (forall k, find_id p (faulty s) = Some k -> exists k', pget p (prods s') = Some (PRet (RErr k'))))).
 Proof.
-  intros Hc RF St IR R.
-  pose proof (reachable_fit_reachable _ _ RF) as RE.
+  intros Hc RE St IR R.
   pose proof (reach_tokinv _ _ _ RE) as T.
   pose proof (reach_nofault _ c s (fun l H => H) RE) as NF.
   destruct (internal_terminates_l _ _ _ _ NF T St IR R) as (L & T' & _).
   pose proof (mu_nonneg s' T'). split; [lia|].
   intros Q.
-  assert (RF' : reachable_fit c s').
-  { eapply reachP_run; [exact RF| |exact R]. eapply Forall_impl; [|exact IR]. intros a. apply internal_is_fit. }
-  pose proof (reachable_fit_reachable _ _ RF') as RE'.
+  assert (RE' : reachable c s').
+  { eapply reachP_run; [exact RE| |exact R]. eapply Forall_impl; [|exact IR]. intros a Ha. exact (proj1 (internal_is_fit c a Ha)). }
   destruct (lock s') as [|k|p0|] eqn:LK.
-  - right. pose proof (no_lost_wakeup_partial_l _ _ Hc RF' Q LK) as AR.
+  - right. pose proof (no_lost_wakeup_partial_l _ _ Hc RE' Q LK) as AR.
     destruct (quiescent_facts _ _ Q LK) as (Q1 & Q2 & _).
     destruct (pq_size_bounds_l _ _ Hc RE') as (_ & _ & Z0).
     split; [exact AR|]. split; [exact Q1|]. split; [exact Q2|]. split; [auto|]. split; [reflexivity|].
     intros p sz B Hp NC.
     assert (F : fate p s) by (unfold fate; destruct Hp as [-> | ->]; exact I).
-    pose proof (fate_run _ _ _ _ _ (reach_nofault2 _ c s (fun l H => H) RE) IR B F R) as F'.
+    pose proof (fate_run _ _ _ _ _ B F R) as F'.
     rewrite <- (cancelled_internal_run _ _ _ _ IR R) in NC.
+    pose proof (faulty_internal_run _ _ _ _ IR R) as FE.
+    split.
+    2: { intros k Hk. unfold fate in F'. destruct (pget p (prods s')) as [v|] eqn:E; [|contradiction].
+         destruct (AR _ _ E) as [r ->]. destruct r; eauto; exfalso.
+         - (* ROk: accepted, but a producer whose request cannot be stored is never accepted *)
+           refine (proj1 (reach_faultyinv _ _ Hc RE' p k _) F'); rewrite FE; exact Hk.
+         - contradiction.
+         - contradiction.
+         - contradiction.
+         - contradiction.
+         - refine (proj1 (reach_faultyinv _ _ Hc RE' p k _) F'); rewrite FE; exact Hk. }
+    intros NFp.
     assert (A : In p (acc s')).
     { unfold fate in F'. destruct (pget p (prods s')) as [v|] eqn:E; [|contradiction].
-      destruct (AR _ _ E) as [r ->]. destruct r; auto; contradiction. }
+      destruct (AR _ _ E) as [r ->]. destruct r; auto; try contradiction.
+      exfalso. apply F'. rewrite FE. exact NFp. }
     pose proof (handoff_complete_l _ _ Hc RE' Q1) as HA.
     destruct (handoff_exactly_once_l _ _ Hc RE') as (_ & _ & _ & _ & _ & _ & _ & _ & HF & _).
     split; [exact A|]. rewrite HA. split; [exact A|].
@@ -268,14 +308,13 @@ Qed.
    still inside Offer then an internal label is enabled — and by [mu_decreases] every enabled one leads strictly
    closer to quiescence. *)
 Lemma progress_l c s :
-  0 <= cap c -> reachable_fit c s -> stopped s = false -> lock s = Free -> stuck s ->
+  0 <= cap c -> reachable c s -> stopped s = false -> lock s = Free -> stuck s ->
   exists l s' z, internal l = true /\ step c s l = Some (s', z) /\ mu s' < mu s.
 Proof.
-  intros Hc RF St L (p & v & Hp & NR).
-  pose proof (reachable_fit_reachable _ _ RF) as RE.
+  intros Hc RE St L (p & v & Hp & NR).
   pose proof (reach_tokinv _ _ _ RE) as T.
   assert (EN : exists l, internal l = true /\ step c s l <> None).
-  { destruct (reach_fit_inv _ _ Hc RF) as (((T1 & T2 & T3 & T4) & (B1 & _ & B3 & _) & (_ & _ & _ & _ & _ & G6) & _) & A & F & N).
+  { destruct (reach_fit_inv _ _ Hc RE) as (((T1 & T2 & T3 & T4) & (B1 & _ & B3 & _) & (_ & _ & _ & _ & _ & G6) & _) & A & F & N).
     assert (RD : items s <> [] -> exists l, internal l = true /\ step c s l <> None).
     { intros NE. destruct (items s) as [|[q w] r] eqn:E; [congruence|].
       destruct (read_enabled_l c s q w r E L (fun _ => St)) as (s1 & H1 & _).
